@@ -13,6 +13,7 @@ predictions by direct comparison.  C19 is therefore partial by nature (DESIGN §
 import OpfVerif.Model.Forest
 import OpfVerif.Model.Knn
 import OpfVerif.Gen.Effects
+import OpfVerif.Gen.PersistText
 namespace Opf
 
 /-- equal forest state ⇒ equal predictions and relevance marks, for every batch. -/
@@ -33,5 +34,20 @@ theorem c19_load_replaces :
 /-- `save` writes nothing (neither the receiver nor anything else). -/
 theorem c19_save_readonly :
     (Gen.stores.filter (fun s => s.1 == "opfython/core/opf.py:OPF.save")) = [] := by decide
+
+/-- `save` as written: the whole object, and nothing else, goes through `pickle.dump` into the file named by the caller
+(opened for writing in binary mode; no directory handling, no copy of the object, no post-processing). -/
+theorem c19_save_body : Gen.PersistText.save_body =
+    "(self, file_name)\nwith open(file_name, 'wb') as dest_file:\n    pickle.dump(self, dest_file)" := by decide +kernel
+
+/-- `load` as written: one `pickle.load` of the named file and one `__dict__.update` with everything the loaded object
+carries — no attribute is re-derived, filtered or defaulted afterwards. -/
+theorem c19_load_body : Gen.PersistText.load_body =
+    "(self, file_name)\nwith open(file_name, 'rb') as origin_file:\n    opf = pickle.load(origin_file)\n    self.__dict__.update(opf.__dict__)" := by
+  decide +kernel
+
+/-- no class of the package customises pickling or copying (`__getstate__`, `__setstate__`, `__reduce__`, …): what is
+saved is the object's `__dict__` as Python's default protocol takes it. -/
+theorem c19_no_pickle_hooks : Gen.PersistText.pickle_hooks = [] := by decide
 
 end Opf
